@@ -8,8 +8,8 @@ def chunkGrowth : Option Nat := (some 2)
 def maxChunk : Option Nat := (some 4194304)
 def smallBuf : Option Nat := (some 32)
 def frameBuffer : Option Nat := (some 8388608)
-def sendNonceStep : Option Nat := (some 0)
-def recvNonceStep : Option Nat := (some 0)
+def sendNonceStep : Option Nat := (some 2)
+def recvNonceStep : Option Nat := (some 2)
 def bossSendParity : Option Nat := (some 0)
 def bossRecvParity : Option Nat := (some 1)
 def doerSendParity : Option Nat := (some 1)
